@@ -100,13 +100,19 @@ St3SwapEv(ev) ==
                      <<"C04.swap.invariant-decrease-within-rounding-dust", D0 \preceq D1 \/ D0 \preceq (D1 ++ dustD)>>,
                      <<"C04.swap.there-and-back-never-profits", ~prof>>,
                      <<"C04.swap.there-and-back-profit-within-rounding-dust", ~prof \/ ev.out2.dx \preceq (a.amt ++ dustX)>> >>
-St3DepEv(ev) ==
+St3DepDrift(ev) ==
+  LET a == ev.args IN
+  IF ev.res = "aborted" \/ a.pa = Zero \/ a.pb = Zero \/ a.pc = Zero THEN <<>>
+  ELSE LET impl == ImplMint3(a.amp, a.xa, a.xb, a.xc, a.pa, a.pb, a.pc, a.S) IN
+       << <<"drift.st3dep.mint=Newton-transcription", (ev.res = "ok") = impl.ok /\ (impl.ok => ev.out.minted = impl.minted)>> >>
+St3DepRules(ev) ==
   LET a == ev.args IN
   IF ev.res # "ok" THEN <<>>
   ELSE LET qa == a.pa ++ a.xa  qb == a.pb ++ a.xb  qc == a.pc ++ a.xc
            e0 == N(16) ++ Lopsided(NMax(a.pa, NMax(a.pb, a.pc)), NMin(a.pa, NMin(a.pb, a.pc)))
            e1 == N(16) ++ Lopsided(NMax(qa, NMax(qb, qc)), NMin(qa, NMin(qb, qc)))
        IN MintChecks("C04", "", ev.out.minted, a.S, Dstar3(a.pa, a.pb, a.pc, a.amp), Dstar3(qa, qb, qc, a.amp), e0, e1)
+St3DepEv(ev) == St3DepDrift(ev) \o St3DepRules(ev)
 AmpEv(ev) ==
   LET a == ev.args  v == ev.out.amp IN
   << <<"C04.amp.computed", ev.res = "ok">>,
